@@ -252,6 +252,9 @@ func (e *fnEnc) call(c *blockCtx, in ssa.Instruction, cc *ssa.CallCommon) []Term
 	}
 	ctr := e.eng.contracts[name]
 	if ctr == nil {
+		if res, ok := e.inlineCall(c, in, cc, name, args); ok {
+			return res
+		}
 		return e.uncontractedCall(c, in, name, sig)
 	}
 	return e.applyContract(c, in, name, ctr, args, argTypes, cc)
